@@ -2,6 +2,8 @@ import Slu.Model.Kernels
 import SluProofs.Lemmas.Kernels
 import SluProofs.Lemmas.Gemv
 import SluProofs.Lemmas.CxRat
+import SluProofs.Lemmas.Trsv
+import SluProofs.Lemmas.TrsvLayout
 /-
 C14 — Sparse triangular solve / multiply kernels compute the documented operation.
 
@@ -13,13 +15,14 @@ ALL sizes, flags, alpha/beta, strides of y, leading dimensions and numbers of ri
   `spGemm`, the statement-order model that the driver also runs at `Float/Float32/Cx _` and compares
   bit for bit with `sp_[sdcz]gemv/gemm`.
 * `sp_trsv_spec`: about `trsvRef`, the dense reference (forward / back substitution on
-  `op(decodeL)` / `op(decodeU)` with the documented meaning of `diag`).  The supernodal model
-  `spTrsv` (the object compared with `sp_[sdcz]trsv`) is checked equal to `trsvRef` in exact
-  arithmetic on every generated case by the driver; that equality is NOT proved (partial):
-
-  /- sp_trsv_model_goal :
-       wfSC F → (∀ i < n, trsvMat F uplo tr unit i i ≠ 0) → b.size = n →
-       ∀ i < n, (spTrsv F uplo tr unit b)[i]! = (trsvRef F uplo tr unit b)[i]! -/
+  `op(decodeL)` / `op(decodeU)` with the documented meaning of `diag`).
+* `sp_trsv_model`: the supernodal model `spTrsv` (the object compared with `sp_[sdcz]trsv`; it
+  follows the C loops supernode by supernode) EQUALS `trsvRef`, entry by entry, on every (L, U) pair
+  that passes the structural checker `Slu.Struct.wfb` (C03) — all twelve `uplo × trans × diag`
+  combinations, every size, every right-hand side, singular diagonal included (both sides divide by
+  the same entry).  `sp_trsv_model_spec`: hence the model itself solves `op(T) x = b`, and
+  `trsvMat_triangular`: the matrix it refers to is triangular on such storage.  For `trans = C` the
+  conjugation must fix 0 and 1 and be additive (`ConjOK`; true for `Rat` and `Cx Rat`, see the examples).
 * `gstrs_columns_independent`, `gstrs_layout_irrelevant`, `gstrsCol_size`: about `gstrs`.
 -/
 namespace Slu.Kernels
@@ -65,6 +68,46 @@ theorem sp_trsv_spec (F : LUFac K) (uplo : UpLo) (tr : Tr) (unit : Bool) (b : Ar
     rw [hz, zero_add]
     exact bwdSub_row (trsvMat F uplo tr unit) (fun i => trsvMat F uplo tr unit i i) (fun i => b.getD i 0) F.L.n i hi (hdiag i hi)
 
+
+/-- **C14 (sp_trsv, the supernodal model is the dense reference).** For every (L, U) pair accepted by
+the structural checker `wfb` (with or without the ILU relaxation) with square L, every `uplo`, `trans`,
+`diag` and every right-hand side of length `n`: the supernodal forward / back substitution that follows
+the loops of `sp_[sdcz]trsv` returns `n` entries and they are those of the dense reference. -/
+theorem sp_trsv_model (F : LUFac K) (ilu : Bool) (uplo : UpLo) (tr : Tr) (unit : Bool) (b : Array K)
+    (hwf : Slu.Struct.wfb F ilu = true) (hsq : F.L.m = F.L.n) (hconj : tr = Tr.C → ConjOK K)
+    (hb : b.size = F.L.n) :
+    (spTrsv F uplo tr unit b).size = F.L.n ∧
+    ∀ i, i < F.L.n → (spTrsv F uplo tr unit b)[i]! = (trsvRef F uplo tr unit b)[i]! := by
+  by_cases h0 : F.L.n = 0
+  · exact ⟨by simp [spTrsv, h0, hb], fun i hi => by omega⟩
+  · exact spTrsv_eq_ref F (layout_of_wfb F ilu h0 hsq hwf) uplo tr hconj unit b hb
+
+/-- on storage accepted by `wfb` the matrix `sp_trsv` refers to is triangular: the first hypothesis of
+`sp_trsv_spec` always holds there -/
+theorem trsvMat_triangular (F : LUFac K) (ilu : Bool) (uplo : UpLo) (tr : Tr) (unit : Bool)
+    (hwf : Slu.Struct.wfb F ilu = true) (hsq : F.L.m = F.L.n) (hconj : tr = Tr.C → ConjOK K) :
+    ∀ i j, i < F.L.n → j < F.L.n → (if effLower uplo tr then i < j else j < i) →
+      trsvMat F uplo tr unit i j = 0 := by
+  intro i j hi hj h
+  exact (layout_of_wfb F ilu (by omega) hsq hwf).trsvMat_tri uplo tr hconj unit i j hi hj h
+
+/-- **C14 (sp_trsv, the model solves the system).** On storage accepted by `wfb`, with a nonzero
+diagonal of the matrix referred to (automatic for `uplo = L` and for `diag = 'U'`), the supernodal
+model returns the solution of `op(T) x = b`. -/
+theorem sp_trsv_model_spec (F : LUFac K) (ilu : Bool) (uplo : UpLo) (tr : Tr) (unit : Bool) (b : Array K)
+    (hwf : Slu.Struct.wfb F ilu = true) (hsq : F.L.m = F.L.n) (hconj : tr = Tr.C → ConjOK K)
+    (hb : b.size = F.L.n) (hdiag : ∀ i, i < F.L.n → trsvMat F uplo tr unit i i ≠ 0) :
+    (spTrsv F uplo tr unit b).size = F.L.n ∧
+    ∀ i, i < F.L.n →
+      ∑ j ∈ range F.L.n, trsvMat F uplo tr unit i j * (spTrsv F uplo tr unit b)[j]! = b[i]! := by
+  obtain ⟨hs, hv⟩ := sp_trsv_model F ilu uplo tr unit b hwf hsq hconj hb
+  obtain ⟨rs, rv⟩ := sp_trsv_spec F uplo tr unit b (trsvMat_triangular F ilu uplo tr unit hwf hsq hconj) hdiag
+  refine ⟨hs, fun i hi => ?_⟩
+  rw [getElem!_eq_getD_of_lt b i (by omega), ← rv i hi]
+  apply Finset.sum_congr rfl
+  intro j hj
+  have hj' := mem_range.mp hj
+  rw [hv j hj', getElem!_eq_getD_of_lt _ j (by omega)]
 
 /-! ### sp_gemv -/
 
@@ -309,6 +352,24 @@ example (F : LUFac Rat) (h1 : F.L.n = 1) (uplo : UpLo) (tr : Tr) (b : Array Rat)
   (sp_trsv_spec F uplo tr true b
     (by intro i j hi hj h; rw [h1] at hi hj; split at h <;> omega)
     (by intro i _; simp [trsvMat])).2
+
+/-- the conjugation laws hold for real and for complex data -/
+example : ConjOK Rat := ⟨rfl, rfl, fun _ _ => rfl⟩
+example : ConjOK (Cx Rat) :=
+  ⟨Cx.conj_zero, by apply Cx.ext' <;> simp [Cx.conj_def, Cx.one_def],
+   fun a b => by apply Cx.ext' <;> simp [Cx.conj_def, Cx.add_def]; ring⟩
+
+/-- the hypotheses of `sp_trsv_model` are satisfiable: a 3 x 3 factor with one 2-column supernode and a
+singleton passes the checker; the theorem applies to every flag combination and right-hand side -/
+def exQ : LUFac Rat :=
+  { L := { m := 3, n := 3, nsuper := 1, xsup := #[0, 2, 3], supno := #[0, 0, 1], xlsub := #[0, 3, 3, 4],
+           lsub := #[0, 1, 2, 2], xlusup := #[0, 3, 6, 7], lusup := #[2, 1, 3, 4, 5, 6, 7] },
+    U := { m := 3, n := 3, colptr := #[0, 0, 0, 2], rowind := #[0, 1], val := #[8, 9] },
+    nnzL := 6, nnzU := 6 }
+example : Slu.Struct.wfb exQ = true := by decide +kernel
+example (uplo : UpLo) (tr : Tr) (unit : Bool) (b : Array Rat) (hb : b.size = 3) :
+    ∀ i, i < 3 → (spTrsv exQ uplo tr unit b)[i]! = (trsvRef exQ uplo tr unit b)[i]! :=
+  (sp_trsv_model exQ false uplo tr unit b (by decide +kernel) rfl (fun _ => ⟨rfl, rfl, fun _ _ => rfl⟩) hb).2
 
 /-- complex data: the Gaussian rationals are a field with a lawful `==` -/
 example (tr : Tr) (alpha beta : Cx Rat) (A : CSC (Cx Rat)) (x y : Array (Cx Rat)) (incx incy : Int)
